@@ -46,6 +46,21 @@ type Proxy struct {
 	// place (nil: forward the message unchanged) and messages to send back to the sender
 	// first (as if the other side had just said them)
 	tamper func(dir int, raw json.RawMessage) (forward, back []json.RawMessage)
+	// AckWhileStalled: a stalled (silent) connection still acknowledges the server's calls,
+	// so that libovsdb's server, which waits for every monitor, is not blocked by it
+	AckWhileStalled bool
+	// down: the endpoint is unreachable (connections are closed as soon as they are accepted)
+	down bool
+}
+
+// SetDown makes the endpoint unreachable (existing connections are cut) or reachable again.
+func (p *Proxy) SetDown(down bool) {
+	p.mu.Lock()
+	p.down = down
+	p.mu.Unlock()
+	if down {
+		p.CutAll()
+	}
 }
 
 // SetTamper installs (or removes, with nil) a message rewriting function.
@@ -113,6 +128,14 @@ func (p *Proxy) SetFaults(fs ...Fault) {
 	}
 	p.conns = 0
 	p.counts = nil
+}
+
+// AddFault adds a planned fault without disturbing the counters (for faults planned while
+// connections are in use).
+func (p *Proxy) AddFault(f Fault) {
+	p.mu.Lock()
+	defer p.mu.Unlock()
+	p.faults = append(p.faults, &f)
 }
 
 // Counts returns the messages seen per direction on connection i.
@@ -186,6 +209,13 @@ func (p *Proxy) accept() {
 		if err != nil {
 			return
 		}
+		p.mu.Lock()
+		down := p.down
+		p.mu.Unlock()
+		if down {
+			_ = rawc.Close()
+			continue
+		}
 		var c net.Conn = &lockedConn{Conn: rawc}
 		raws, err := net.Dial("unix", p.target)
 		if err != nil {
@@ -225,7 +255,7 @@ func (p *Proxy) pump(idx, dir int, from, to net.Conn, cut func(), stall chan str
 		k := p.counts[idx][dir]
 		var fault *Fault
 		for _, f := range p.faults {
-			if !f.Fired && f.OnConn == idx && f.Dir == dir && f.K == k {
+			if !f.Fired && f.OnConn == idx && f.Dir == dir && (f.K == k || f.K == 0) { // K 0: the next message
 				f.Fired = true
 				fault = f
 			}
@@ -291,6 +321,16 @@ func (p *Proxy) pump(idx, dir int, from, to net.Conn, cut func(), stall chan str
 			continue
 		}
 		if stalledNow {
+			if dir == S2C && p.AckWhileStalled {
+				var msg struct {
+					Method string           `json:"method"`
+					ID     *json.RawMessage `json:"id"`
+				}
+				if json.Unmarshal(raw, &msg) == nil && msg.Method != "" && msg.ID != nil && string(*msg.ID) != "null" {
+					ack, _ := json.Marshal(map[string]interface{}{"id": msg.ID, "result": []interface{}{}, "error": nil})
+					_, _ = from.Write(append(ack, '\n'))
+				}
+			}
 			continue // swallow
 		}
 		if fault != nil {
